@@ -153,6 +153,7 @@ const (
 	FaultValErr          // the resolver returns its normal value AND an error (strategy-equivalence only: what "failed" means here is not stated)
 	FaultBadLeaf         // no resolver error: the resolver returns a value its declared leaf type cannot represent (an Int field, or one element of an [Int] field, answers "notanumber")
 	FaultWrapped         // a group of two errors wrapped with context: fmt.Errorf("ctx: %w", ggql.Errors{e1, e2}) - still one entry per member
+	FaultSecond          // the SECOND invocation of that (node, field) in the run fails, the first succeeds (a stateful resolver; only distinguishable where a field is invoked twice for one position: merged response keys)
 	FaultShared          // every failing call returns the same *ggql.Error instance (an application's sentinel error)
 )
 
@@ -173,6 +174,7 @@ type Run struct {
 	Rep    func(n *Node) interface{} // mixed graphs: representation of a node where the carrier is free (nil = the strategy's own)
 	Probe  []string                  // precedence probes: which lower-precedence path answered
 	Sentinel *ggql.Error             // FaultShared: the one instance every failing call returns
+	Seen     map[CallKey]int         // FaultSecond: invocations so far
 }
 
 func NewRun(g *Graph) *Run { return &Run{G: g, Faults: map[CallKey]FaultKind{}} }
